@@ -15,4 +15,6 @@ pub(crate) use poller::{
     ReplicationHandle,
 };
 #[cfg(feature = "verif")]
+pub use distributor::verif_hooks as verif_hooks_distributor;
+#[cfg(feature = "verif")]
 pub use poller::verif_hooks;
